@@ -845,6 +845,10 @@ package builder
 //@   loop#1 invariant [depth C06] DepthIn(p)
 //@   loop#1 invariant [inv] Inv(p) && p.pt == startMark && startMark == old(p.pt)
 //@   loop#1 invariant [seed C08] SP(p.data, lastResult.end) && lastResult.end.offset >= startMark.offset && (!lastResult.b ==> lastResult.end == startMark && lastResult.v == nil && depth == 0) && (depth > 0 ==> lastResult.b) && depth >= 0
+// the errors recorded by an ACCEPTED growth step are the ones kept (only a rejected final attempt is rolled back)
+//@   at "for {" ghost accErrs = *p.errs
+//@   at "lastResult = resultTuple{val, ok, endMark}" ghost accErrs = *p.errs
+//@   loop#1 invariant [accepted-errors C08 C11 C17] lastErrors == accErrs
 //@   loop#1 invariant [errs C08] *p.errs == lastErrors
 //@   loop#1 invariant [store C05] LoopStore(p) && (depth == 0 ==> StoreSame(p))
 //@   loop#1 invariant [stacks C02 C14] Stacks(p) && p.maxFailInvertExpected == old(p.maxFailInvertExpected)
@@ -930,6 +934,9 @@ package builder
 //@   ensures [peg C01] D(expr, p.data, old(p.pt.offset), ok, p.pt.offset, val)
 //@   ensures [shape C01] Shape(p, val, ok)
 //@   ensures [store C05] StoreC(p, ok)
+// a successful labeled expression leaves its label bound to its value in the current scope -- whichever way the
+// result was obtained (C02; C06: also when it comes from the memo table -- it does not: known finding F16)
+//@   ensures [bind C02 C06] ok && is(expr, "*labeledExpr") && as(expr, "*labeledExpr").label != "" ==> has(p.vstack[len(p.vstack)-1], as(expr, "*labeledExpr").label) && p.vstack[len(p.vstack)-1][as(expr, "*labeledExpr").label] == val
 //@   ensures [stacks C02 C14] Stacks(p)
 //@   ensures [depth C06] DepthBal(p)
 //@   ensures [invert C12] p.maxFailInvertExpected == old(p.maxFailInvertExpected)
@@ -946,6 +953,9 @@ package builder
 //@   ensures [peg C01 C06] D(expr, p.data, old(p.pt.offset), ok, p.pt.offset, val)
 //@   ensures [shape C01 C06] Shape(p, val, ok)
 //@   ensures [store C05] StoreC(p, ok)
+// a successful labeled expression leaves its label bound to its value in the current scope -- whichever way the
+// result was obtained (C02; C06: also when it comes from the memo table -- it does not: known finding F16)
+//@   ensures [bind C02 C06] ok && is(expr, "*labeledExpr") && as(expr, "*labeledExpr").label != "" ==> has(p.vstack[len(p.vstack)-1], as(expr, "*labeledExpr").label) && p.vstack[len(p.vstack)-1][as(expr, "*labeledExpr").label] == val
 //@   ensures [stacks C02 C14] Stacks(p)
 //@   ensures [depth C06] DepthBal(p)
 //@   ensures [invert C12] p.maxFailInvertExpected == old(p.maxFailInvertExpected)
@@ -1197,13 +1207,13 @@ package builder
 //@   ensures [inv C01] Inv(p) && InRule(p)
 //@   ensures [peg-action C01] D(act, p.data, old(p.pt.offset), ok, p.pt.offset, val)
 //@   ensures [shape C01] Shape(p, val, ok)
-//@   ensures [value C01 C02 local] ok ==> val == actVal
+//@   all-calls actionExpr.run [value C01 C02] ok ==> val == v
 //@   ensures [store C05] StoreC(p, ok)
 //@   ensures [stacks C02 C14] Stacks(p)
 //@   ensures [depth C06] DepthBal(p)
 //@   ensures [invert C12] p.maxFailInvertExpected == old(p.maxFailInvertExpected)
 //@   ensures [budget C16] Budget(p)
-//@   ensures [err-recorded C11 local] ok && err != nil ==> len(*p.errs) >= 1 && IsPErr((*p.errs)[len(*p.errs)-1], err, old(p.pt.position))
+//@   all-calls actionExpr.run [err-recorded C11] err != nil ==> len(*p.errs) >= 1 && IsPErr((*p.errs)[len(*p.errs)-1], err, old(p.pt.position))
 // the block runs only after a match and sees the matched bytes and the start position (C02)
 //@   before actionExpr.run assert [ctx C02] ok && p.cur.pos == old(p.pt.position) && p.cur.text == p.data[old(p.pt.offset):p.pt.offset]
 //@   safety C11
@@ -1217,7 +1227,9 @@ package builder
 //@   ensures [inv C01] Inv(p) && InRule(p)
 //@   ensures [peg-andcode C01] D(and, p.data, old(p.pt.offset), res, p.pt.offset, val)
 //@   ensures [zero-width C01 C02] p.pt == old(p.pt) && val == nil
-//@   ensures [decides C02 local] res == ok
+// the block's boolean alone decides (whatever error it returns besides)
+//@   all-calls andCodeExpr.run [decides C02] res == b
+//@   must-call andCodeExpr.run [asked C02] true
 //@   ensures [state-always C05] StoreC(p, false)
 //@   ensures [store C05] StoreC(p, res)
 //@   ensures [scope C02] TopKept(p)
@@ -1225,7 +1237,7 @@ package builder
 //@   ensures [depth C06] DepthBal(p)
 //@   ensures [invert C12] p.maxFailInvertExpected == old(p.maxFailInvertExpected)
 //@   ensures [budget C16] Budget(p)
-//@   ensures [err-recorded C11 local] err != nil ==> len(*p.errs) >= 1 && IsPErr((*p.errs)[len(*p.errs)-1], err, p.pt.position)
+//@   all-calls andCodeExpr.run [err-recorded C11] err != nil ==> len(*p.errs) >= 1 && IsPErr((*p.errs)[len(*p.errs)-1], err, p.pt.position)
 // predicate blocks see the current position and an empty text (C02)
 //@   before andCodeExpr.run assert [ctx C02] p.cur.pos == p.pt.position && len(p.cur.text) == 0
 //@   safety C11
@@ -1239,7 +1251,9 @@ package builder
 //@   ensures [inv C01] Inv(p) && InRule(p)
 //@   ensures [peg-notcode C01] D(not, p.data, old(p.pt.offset), res, p.pt.offset, val)
 //@   ensures [zero-width C01 C02] p.pt == old(p.pt) && val == nil
-//@   ensures [decides C02 local] res == !ok
+// the block's boolean alone decides (whatever error it returns besides)
+//@   all-calls notCodeExpr.run [decides C02] res == !b
+//@   must-call notCodeExpr.run [asked C02] true
 //@   ensures [state-always C05] StoreC(p, false)
 //@   ensures [store C05] StoreC(p, res)
 //@   ensures [scope C02] TopKept(p)
@@ -1247,7 +1261,7 @@ package builder
 //@   ensures [depth C06] DepthBal(p)
 //@   ensures [invert C12] p.maxFailInvertExpected == old(p.maxFailInvertExpected)
 //@   ensures [budget C16] Budget(p)
-//@   ensures [err-recorded C11 local] err != nil ==> len(*p.errs) >= 1 && IsPErr((*p.errs)[len(*p.errs)-1], err, p.pt.position)
+//@   all-calls notCodeExpr.run [err-recorded C11] err != nil ==> len(*p.errs) >= 1 && IsPErr((*p.errs)[len(*p.errs)-1], err, p.pt.position)
 //@   before notCodeExpr.run assert [ctx C02] p.cur.pos == p.pt.position && len(p.cur.text) == 0
 //@   safety C11
 //@   frame C18
@@ -1266,7 +1280,7 @@ package builder
 //@   ensures [depth C06] DepthBal(p)
 //@   ensures [invert C12] p.maxFailInvertExpected == old(p.maxFailInvertExpected)
 //@   ensures [budget C16] Budget(p)
-//@   ensures [err-recorded C11 local] err != nil ==> len(*p.errs) >= 1 && IsPErr((*p.errs)[len(*p.errs)-1], err, p.pt.position)
+//@   all-calls stateCodeExpr.run [err-recorded C11] err != nil ==> len(*p.errs) >= 1 && IsPErr((*p.errs)[len(*p.errs)-1], err, p.pt.position)
 //@   before stateCodeExpr.run assert [ctx C02] p.cur.pos == p.pt.position && len(p.cur.text) == 0
 //@   safety C11
 //@   frame C18
